@@ -42,6 +42,28 @@ def run(chk, which, pid):
             if n == 1:
                 chk.sample({"kind": "TLC path replayed on a real server", "flavour": flavour, "steps": labels})
     chk.cov["paths_replayed"] = n
+    # ---- the accept loop, the serving thread and close() as separate steps (RpycServerSteps), and their schedules on the real servers
+    from harness.drivers import server_windows as sw
+    from harness import linepause
+    res = tlc.require_ok(tlc.run_tlc("RpycServerSteps", "MC_RpycServerSteps.cfg", workers=4, coverage=True), "RpycServerSteps")
+    if res.violation:
+        raise tlc.MachineryError("RpycServerSteps (repaired accept) violates " + res.violation)
+    chk.add_tlc(res, "RpycServerSteps, accept() re-checking _closed: 3 clients, every interleaving of accept loop / serving threads / "
+                "close(): NoServiceAfterClose, NothingLeftBehind, DepartedLeaveNothing, GoodUntouched, Settles")
+    res = tlc.run_tlc("RpycServerSteps", "MC_RpycServerSteps_pinned.cfg", workers=4)
+    if res.violation != "NoServiceAfterClose":
+        raise tlc.MachineryError("the pinned accept()/close() design is expected to violate NoServiceAfterClose, TLC says %r" % res.violation)
+    chk.add_tlc(res, "RpycServerSteps without the re-check (pinned tree): TLC's counterexample - close() between `if not self.active` "
+                "and `self.clients.add(sock)` - is one of the windows executed below")
+    try:
+        quick = not chk.thorough
+        plan2 = [("threaded", False, 25 if quick else None), ("pool", False, 12 if quick else None)]
+        if which == "c16" or not quick:
+            plan2.append(("threaded", True, 10 if quick else None))
+        for flavour, auth, budget in plan2:
+            sw.sweep(chk, which, pid, flavour, auth, rnd, budget)
+    finally:
+        linepause.shutdown()
     return n
 
 
@@ -54,7 +76,10 @@ def main():
     run_forking(chk, PID, "c17")
     chk.assumptions += ["real sockets, threads and processes: conditions are awaited with deadlines (4 s), outcomes classified by kind",
                         "client request timeout 4 s: a client of a closed server must see end-of-stream, not that timeout"]
-    return chk.finish(rule="evaluations = steps of TLC paths executed against real servers; distinct = (flavour, transport, path)")
+    chk.assumptions += ["schedules at statement granularity are forced with sys.monitoring breakpoints on the real server threads; one thread "
+                        "is held inside a window while one other operation runs to completion"]
+    return chk.finish(rule="evaluations = steps of TLC paths executed against real servers + window scenarios; distinct = (flavour, "
+                      "transport, path) and (statement, phase, intruder)")
 
 
 if __name__ == "__main__":
